@@ -84,3 +84,20 @@ package retransmission
 //@   lit 3
 //@     opt noframe 1
 //@     assert call:Strategy.Tick : [tick-runs-the-strategy-with-the-retransmit-function] recv == strategy && arg0 == retransmit
+
+// ---------------------------------------------------------------------------
+// C16: at-most-once delivery per (sender, sequence number).
+//@ ghost delivered int
+//@ assume func WithRetransmissionSupport#lit1:delegate
+//@   modifies ghost.delivered
+//@   ensures ghost.delivered == old(ghost.delivered) + 1
+//@ func WithRetransmissionSupport
+//@   property C16
+//@   opt noframe 1
+//@   lit 1
+//@     opt noframe 1
+//@     modifies ghost.delivered
+//@     yields ghost.lastMessageID = messageID
+//@     modifies ghost.lastMessageID
+//@     ensures [delivered-only-on-first-sight-and-remembered] (ghost.lastMessageID in cache) && ghost.delivered == old(ghost.delivered) + ite(ghost.lastMessageID in old(cache), 0, 1)
+//@ ghost lastMessageID string
